@@ -330,6 +330,25 @@ func (ex *Exec) havocCall(fr *Frame, instr ssa.CallInstruction, c *ssa.CallCommo
 // havocPointedLocals: a callee that is not executed inline received a pointer
 // to a non-escaping local; the whole local becomes unknown.
 func (ex *Exec) havocPointedLocals(fr *Frame, c *ssa.CallCommon, st State) State {
+	if !c.IsInvoke() {
+		if _, static := c.Value.(*ssa.Function); !static {
+			if v := ex.val(fr, c.Value); v.Clo != nil {
+				// a function literal that is not executed inline: every tracked local it captured is unknown
+				for _, a := range v.Clo.BindAddr {
+					if a == nil || a.Local == nil {
+						continue
+					}
+					lv := a.Local
+					nv := ex.vc.fresh("hv_"+lv.Name, ex.te.sortOf(lv.T))
+					ex.assumeTypeDeep(nv, lv.T)
+					st = st.with(lv.Key, nv)
+					ex.outsideSubset("local " + lv.Name + " is captured by a function literal that is not executed inline")
+				}
+			} else if _, isBuiltin := c.Value.(*ssa.Builtin); !isBuiltin && closureOf(c.Value) != nil {
+				ex.outsideSubset("call of a function literal whose value was lost")
+			}
+		}
+	}
 	for _, a := range c.Args {
 		t := ex.val(fr, a)
 		if t.Lost {
@@ -614,6 +633,13 @@ func (ex *Exec) doAppend(fr *Frame, instr ssa.CallInstruction, c *ssa.CallCommon
 	} else {
 		return ex.havocCall(fr, instr, c, pc, st, instr.Value().Type())
 	}
+	nst, r := ex.appendCore(pc, st, s, t, el)
+	return nst, r, false
+}
+
+// appendCore: the semantics of append(s, t...) for element type el: in place when
+// the capacity suffices, otherwise into a fresh allocation.
+func (ex *Exec) appendCore(pc Term, st State, s, t Term, el types.Type) (State, Term) {
 	var tl Term
 	if t.Sort == SStr {
 		tl = app(SInt, "strlen", t)
@@ -629,7 +655,7 @@ func (ex *Exec) doAppend(fr *Frame, instr ssa.CallInstruction, c *ssa.CallCommon
 	r := ex.vc.def("appended", ite(inPlace, mkSlice(sBase(s), sOff(s), newLen, sCap(s)), mkSlice(nb, intLit(0), newLen, ncap)))
 	if t.Sort == SStr {
 		keys := map[string]bool{cellKey(el): true}
-		return ex.havocKeys(st, keys, "append string"), r, false
+		return ex.havocKeys(st, keys, "append string"), r
 	}
 	for _, lf := range ex.leaves(el) {
 		so := arraySort(SRef, lf.so)
@@ -651,7 +677,7 @@ func (ex *Exec) doAppend(fr *Frame, instr ssa.CallInstruction, c *ssa.CallCommon
 			ex.inResultRange(lf, r, sLen(s), newLen, nb, inPlace), nh.S, h.S, nh.S), SBool), "append: frame")
 		st = st.with(lf.key, nh)
 	}
-	return st, r, false
+	return st, r
 }
 
 // inResultRange emits (and names) a predicate Ref->Bool that is true for the
@@ -877,51 +903,191 @@ func (ex *Exec) loopWrites(fr *Frame, li *loopInfo) (heap map[string]bool, local
 	locals = map[*ssa.Alloc]bool{}
 	for b := range li.body {
 		for _, in := range b.Instrs {
+			ex.instrHeapWrites(in, fr.escapes, nil, heap, 0)
 			switch in := in.(type) {
 			case *ssa.Store:
-				root := addrRoot(in.Addr)
-				if al, ok := root.(*ssa.Alloc); ok && !fr.escapes[al] {
+				if al, ok := addrRoot(in.Addr).(*ssa.Alloc); ok && !fr.escapes[al] {
 					locals[al] = true
-					continue
 				}
-				ex.g.keysForStore(in.Addr, in.Val.Type(), heap)
 			case *ssa.Alloc:
 				if !fr.escapes[in] {
 					locals[in] = true
-				} else {
-					el := in.Type().Underlying().(*types.Pointer).Elem()
-					ex.g.leafKeys(el, heap)
-				}
-			case *ssa.MakeInterface:
-				if ex.te.sortOf(in.X.Type()) != SRef {
-					ex.g.leafKeys(in.X.Type(), heap)
-				}
-			case *ssa.MapUpdate:
-				for _, k := range mapKeys(in.Map.Type()) {
-					heap[k] = true
-				}
-			case *ssa.MakeMap:
-				for _, k := range mapKeys(in.Type()) {
-					heap[k] = true
 				}
 			case ssa.CallInstruction:
 				if _, isGo := in.(*ssa.Go); isGo {
 					continue
 				}
-				for k := range ex.g.siteFrame(in) {
-					heap[k] = true
-				}
-				for _, s := range ex.siteSpecs("ghost-after") {
-					if contains(calleeNames(in.Common()), s.Target) {
-						heap["G|"+s.C.Label] = true
+				// tracked locals reached by the call: through a pointer argument, or through the
+				// free variables of a function literal called here
+				c := in.Common()
+				for _, a := range c.Args {
+					if _, isPtr := a.Type().Underlying().(*types.Pointer); !isPtr {
+						continue
+					}
+					if al, ok := addrRoot(a).(*ssa.Alloc); ok && !fr.escapes[al] {
+						locals[al] = true
 					}
 				}
-				// closures called in the loop may write the enclosing function's locals: those
-				// are escaping by construction, hence heap keys, already covered by frames.
+				if mc := closureOf(c.Value); mc != nil {
+					if cfn, ok := mc.Fn.(*ssa.Function); ok {
+						for i, b := range mc.Bindings {
+							al, ok := addrRoot(b).(*ssa.Alloc)
+							if !ok || fr.escapes[al] {
+								continue
+							}
+							if i >= len(cfn.FreeVars) || writtenThrough(cfn.FreeVars[i], map[ssa.Value]bool{}) {
+								locals[al] = true
+							}
+						}
+					}
+				}
+			}
+		}
+	}
+	// a local whose address is kept in another local is written by stores and calls that
+	// go through a load of that copy
+	for al, aliases := range spilledAllocs(fr.fn) {
+		if fr.escapes[al] || locals[al] {
+			continue
+		}
+		for b := range li.body {
+			for _, in := range b.Instrs {
+				switch in := in.(type) {
+				case *ssa.Store:
+					if aliases[addrRoot(in.Addr)] {
+						locals[al] = true
+					}
+				case ssa.CallInstruction:
+					for _, a := range in.Common().Args {
+						if aliases[addrRoot(a)] {
+							locals[al] = true
+						}
+					}
+				}
 			}
 		}
 	}
 	return
+}
+
+// instrHeapWrites adds the heap keys one instruction may write. esc is the
+// escape set of the function the instruction belongs to; tracked holds the
+// free variables of that function that are bound to tracked locals of an
+// enclosing function (stores through them are local writes, not heap writes).
+func (ex *Exec) instrHeapWrites(in ssa.Instruction, esc map[*ssa.Alloc]bool, tracked map[ssa.Value]bool, heap map[string]bool, depth int) {
+	switch in := in.(type) {
+	case *ssa.Store:
+		root := addrRoot(in.Addr)
+		if al, ok := root.(*ssa.Alloc); ok && !esc[al] {
+			return
+		}
+		if tracked[root] {
+			return
+		}
+		ex.g.keysForStore(in.Addr, in.Val.Type(), heap)
+	case *ssa.Alloc:
+		if esc[in] {
+			el := in.Type().Underlying().(*types.Pointer).Elem()
+			ex.g.leafKeys(el, heap)
+		}
+	case *ssa.MakeInterface:
+		if ex.te.sortOf(in.X.Type()) != SRef {
+			ex.g.leafKeys(in.X.Type(), heap)
+		}
+	case *ssa.MapUpdate:
+		for _, k := range mapKeys(in.Map.Type()) {
+			heap[k] = true
+		}
+	case *ssa.MakeMap:
+		for _, k := range mapKeys(in.Type()) {
+			heap[k] = true
+		}
+	case ssa.CallInstruction:
+		if _, isGo := in.(*ssa.Go); isGo {
+			return
+		}
+		for _, s := range ex.siteSpecs("ghost-after") {
+			if contains(calleeNames(in.Common()), s.Target) {
+				heap["G|"+s.C.Label] = true
+			}
+		}
+		c := in.Common()
+		if mc := closureOf(c.Value); mc != nil && depth < 4 {
+			if cfn, ok := mc.Fn.(*ssa.Function); ok && inlinableLiteral(cfn) && onlyCalled(mc) {
+				// executed inline: its writes through captured tracked locals are local writes
+				sub := map[ssa.Value]bool{}
+				for i, b := range mc.Bindings {
+					if i >= len(cfn.FreeVars) {
+						break
+					}
+					root := addrRoot(b)
+					if al, ok := root.(*ssa.Alloc); ok && !esc[al] {
+						sub[cfn.FreeVars[i]] = true
+					} else if tracked[root] {
+						sub[cfn.FreeVars[i]] = true
+					}
+				}
+				cesc := escapingAllocs(cfn)
+				for _, b := range cfn.Blocks {
+					for _, cin := range b.Instrs {
+						ex.instrHeapWrites(cin, cesc, sub, heap, depth+1)
+					}
+				}
+				return
+			}
+		}
+		for k := range ex.g.siteFrame(in) {
+			heap[k] = true
+		}
+	}
+}
+
+// closureOf: the function literal a call's callee value denotes, directly or
+// through the once-assigned local variable holding it.
+func closureOf(v ssa.Value) *ssa.MakeClosure {
+	if mc, ok := v.(*ssa.MakeClosure); ok {
+		return mc
+	}
+	u, ok := v.(*ssa.UnOp)
+	if !ok || u.Op != token.MUL {
+		return nil
+	}
+	dst, ok := u.X.(*ssa.Alloc)
+	if !ok || dst.Referrers() == nil {
+		return nil
+	}
+	var found *ssa.MakeClosure
+	for _, r := range *dst.Referrers() {
+		if st, ok := r.(*ssa.Store); ok && st.Addr == dst {
+			mc, ok := st.Val.(*ssa.MakeClosure)
+			if !ok || found != nil {
+				return nil
+			}
+			found = mc
+		}
+	}
+	return found
+}
+
+// parentLocalsWritten: tracked locals of enclosing frames that this (inlined)
+// function may write through its pointer parameters or free variables.
+func (ex *Exec) parentLocalsWritten(fr *Frame) []*LocalVar {
+	var out []*LocalVar
+	if fr.parent == nil {
+		return nil
+	}
+	add := func(v ssa.Value) {
+		if a, ok := fr.addrs[v]; ok && a != nil && a.Local != nil && writtenThrough(v, map[ssa.Value]bool{}) {
+			out = append(out, a.Local)
+		}
+	}
+	for _, p := range fr.fn.Params {
+		add(p)
+	}
+	for _, fv := range fr.fn.FreeVars {
+		add(fv)
+	}
+	return out
 }
 
 func (ex *Exec) loopHead(fr *Frame, li *loopInfo, pc Term, st State) (Term, State) {
@@ -965,6 +1131,14 @@ func (ex *Exec) loopHead(fr *Frame, li *loopInfo, pc Term, st State) (Term, Stat
 		if lv == nil {
 			continue // allocated inside the loop: initialised when executed
 		}
+		if _, ok := st.m[lv.Key]; !ok {
+			continue
+		}
+		v := ex.vc.fresh("lh_"+lv.Name, ex.te.sortOf(lv.T))
+		ex.assumeTypeDeep(v, lv.T)
+		nm[lv.Key] = v
+	}
+	for _, lv := range ex.parentLocalsWritten(fr) {
 		if _, ok := st.m[lv.Key]; !ok {
 			continue
 		}
